@@ -259,6 +259,35 @@ def step (v : Variant) (s : St) : Label → St
 
 def run (v : Variant) (s : St) (sched : List Label) : St := sched.foldl (step v) s
 
+/-! ### reading the detection byte (mux.go:119-123), explicit over the conn's chunks
+
+`io.ReadFull(conn, b[:])` with a one-byte buffer on a conn that delivers the client's bytes
+as the chunk list `cs`: it loops over empty chunks — (0,nil) reads — until it has the byte, or
+fails at end of stream. `readLabel c cs` is the label of the step dispatch takes for
+connection c on such a conn; every chunking, leading empty chunks included, goes through it. -/
+def detect (cs : Stream) : Option (Byte × Stream) :=
+  match takeC 1 cs with
+  | some ([b], rest) => some (b, rest)
+  | _ => none
+
+def readLabel (c : Nat) (cs : Stream) : Label :=
+  match detect cs with
+  | some (b, _) => .firstByte c b
+  | none => .readFail c
+
+/-- what the handler then reads: connWithOneByte{b} over the rest of the conn -/
+def wrapped (cs : Stream) : Option OneByte :=
+  match detect cs with
+  | some (b, rest) => some { b := b, bRead := false, conn := rest }
+  | none => none
+
+/-- a single `conn.Read(b[:])` instead of io.ReadFull (NOT what mux.go does): an empty first
+    read leaves b[0] = 0 and "succeeds" -/
+def detectOneRead (cs : Stream) : Byte × Stream :=
+  match readC 1 cs with
+  | ([b], rest) => (b, rest)
+  | (_, rest) => (byte 0, rest)
+
 /-- terminal events about connection c -/
 def evAbout (c : Nat) : Ev → Bool
   | .delivered c' _ => c' = c
